@@ -174,6 +174,9 @@ func doRaw(client *http.Client, method, url string, body []byte) c07Resp {
 
 func c07Retry(c *Ctx) {
 	client := &http.Client{Transport: &http.Transport{MaxIdleConnsPerHost: 4, ResponseHeaderTimeout: 60 * time.Second}}
+	srv, bare := newSwapServer(), newSwapServer()
+	defer srv.Close()
+	defer bare.Close()
 	c.Cases("case", c.N(1500, 40000), func(i int, r *rand.Rand) {
 		var rex *rexNode
 		withRetry := r.IntN(8) != 0
@@ -237,10 +240,8 @@ func c07Retry(c *Ctx) {
 			c.Violation("expression/rejected", sfmt("buffer.Retry rejected the generated expression %q: %v", exprText, err), desc)
 			return
 		}
-		srv := newTestServer(buf)
-		defer srv.Close()
-		bare := newTestServer(http.HandlerFunc(func(w http.ResponseWriter, req *http.Request) { scripts[final-1].serve(w, final) }))
-		defer bare.Close()
+		srv.set(buf)
+		bare.set(http.HandlerFunc(func(w http.ResponseWriter, req *http.Request) { scripts[final-1].serve(w, final) }))
 		var reqBody []byte
 		if method == "POST" || method == "PUT" {
 			reqBody = detBody(r.IntN(3000), uint64(i))
